@@ -358,8 +358,17 @@ def state_json(st):
     return {k: conv(v) for k, v in st.items()}
 
 
+# strongly contracting / expanding similarities (determinant 1e-9 / 1e9 in 3D): only used where a single transformation is
+# applied (C07), never in words or powers - there the scale compounds beyond anything the absolute tolerances are meant for
+GEN_EXTRA = {
+    2: {"contract": [[F(1, 1000), F(0), F(0)], [F(0), F(1, 1000), F(0)], [F(0), F(0), F(1)]], "expand": fm([[1000, 0, 0], [0, 1000, 0], [0, 0, 1]])},
+    3: {"contract": [[F(1, 1000), F(0), F(0), F(0)], [F(0), F(1, 1000), F(0), F(0)], [F(0), F(0), F(1, 1000), F(0)], [F(0), F(0), F(0), F(1)]], "expand": fm([[1000, 0, 0, 0], [0, 1000, 0, 0], [0, 0, 1000, 0], [0, 0, 0, 1]])},
+}
+
+
 def gen_matrix(dim, gname):
-    return gens(dim)[gname.split("@")[0]]
+    name = gname.split("@")[0]
+    return GEN_EXTRA[dim][name] if name in GEN_EXTRA[dim] else gens(dim)[name]
 
 
 def real_t(G, dim, gname):
